@@ -583,6 +583,9 @@ def check_L10(ctx, rep):
     if check_bound_tests(cr, rep) < 3:
         from core import Broken
         raise Broken('L10.B: fewer than 3 comparisons against a const generic bound found (BoundedSet expected)')
+    if check_no_short_circuit_iteration(cr, rep) < 20:
+        from core import Broken
+        raise Broken('L10.R2: fewer than 20 delegated *_mut calls found in the Lattice impls')
     if check_set_order(cr, rep) < 2:
         from core import Broken
         raise Broken('L10.SO: Set::partial_cmp with a Less and a Greater answer not found')
@@ -1120,4 +1123,41 @@ def check_set_order(cr, rep):
                          '`Set::partial_cmp` answers %s on a path where no containment test (`%s`) holds - e.g. from a comparison of sizes: '
                          'incomparable sets are ordered, and everything that trusts the order (Rc / Arc wrappers, Product) joins wrongly' % (which, want),
                          loc=cr.loc(x))
+    return n
+
+
+# ------------------------------------------------------------------ L10.R2  delegated updates under a short-circuiting adaptor
+
+SHORT_CIRCUITING = ('Iterator::any', 'Iterator::all', 'Iterator::find', 'Iterator::find_map', 'Iterator::position', 'Iterator::take_while',
+                    'Iterator::skip_while', 'Iterator::try_fold', 'Iterator::try_for_each', 'Iterator::map_while')
+
+
+def check_no_short_circuit_iteration(cr, rep):
+    """component-wise operations update *every* component: a delegated `join_mut` / `meet_mut` never runs inside the closure of an
+    iterator adaptor that stops at the first `true` (`any`, `find`, `position`, `try_fold`, ..) - the components after the first
+    one that changed would keep their old values (the change flag would still be right)."""
+    n = 0
+    for path, b in sorted(cr.bodies.items()):
+        if b['name'] not in ('join_mut', 'meet_mut') or not (b.get('trait_of') or '').endswith('lattice::Lattice') or not b.get('impl_of'):
+            continue
+        for x, parents in walk(b['tree']):
+            if x.get('k') != 'mcall' or x['m'] not in ('join_mut', 'meet_mut'):
+                continue
+            n += 1
+            sc = None
+            for i, p_ in enumerate(parents):
+                if p_.get('k') == 'closure':
+                    # the call the closure is an argument of
+                    for q in reversed(parents[:i]):
+                        if q.get('k') in ('mcall', 'call') and any(strip(a) is p_ for a in q.get('a', [])):
+                            c = callee(q)
+                            if c and cname(c).endswith(SHORT_CIRCUITING):
+                                sc = cname(c).split('::')[-1]
+                            break
+            if sc:
+                rep.functions.add(path)
+                rep.viol('L10.R', path, 'short-circuit-iteration:' + sc,
+                         'a delegated %s runs inside `%s`, which stops at the first component that reports a change: the components after it are '
+                         'not updated - the stored value is below the least upper bound although the flag is right' % (x['m'], sc), loc=cr.loc(x))
+    rep.inst('L10.R2', 'delegated *_mut calls inspected for short-circuiting adaptors: %d' % n)
     return n
